@@ -961,7 +961,11 @@ func (e *Engine) loop(v *env, s ast.Stmt, body *ast.BlockStmt, rs *ast.RangeStmt
 			k(v, c)
 			return
 		case ctlBreak:
+			// the iteration that breaks is the last one: what it assigned is what the code after the loop sees
 			v.events = append(v.events, Event{Kind: "break", Name: name, Pos: s.Pos(), Node: s})
+			v.events = append(v.events, Event{Kind: "endloop", Name: name, Pos: s.End(), Node: s})
+			k(v, ctlNext)
+			return
 		case ctlContinue:
 			v.events = append(v.events, Event{Kind: "continue", Name: name, Pos: s.Pos(), Node: s})
 		}
